@@ -432,6 +432,30 @@ theorem C16_async_join_on_drop_dest_stable (pl : Pid → Content) (s s' : FCA.St
   · rw [hb]; exact hc
   · exact C16_dest_stable pl s.base s'.base a' (FCA.base_reachable h) hb c hc
 
+/-- **The code as it is, away from the finding.** On every history of the deferred-write system of the real
+code (`joinOnDrop = false`; any creators, schedules of creators and blocking pool, faults, kills,
+cancellations at all three await points) in which no write is in flight at the moments a callback is dropped
+or returns an error (`FCA.ReachableQD`), the real bytes at the final path are absent or the complete payload of
+the one creator that renamed, and equal the protocol model's. So the ONLY way the real callbacks can violate
+atomicity is the one of `C16_cancel_with_write_in_flight_breaks_atomicity`: a write still queued when the
+`tokio::fs::File` is dropped inside the callback. -/
+theorem C16_async_as_is_atomic_unless_write_in_flight_at_drop (pl : Pid → Content) (s : FCA.State)
+    (h : FCA.ReachableQD pl s) :
+    s.destDisk = s.base.destContent ∧
+    ((s.destDisk = none ∧ s.base.winners = []) ∨ ∃ w, s.destDisk = some (pl w) ∧ s.base.winners = [w]) ∧
+    (∀ p, s.base.pc p = .doneCreated → s.destDisk = some (pl p)) :=
+  have h' := FCA.reachableQD_true h
+  ⟨(C16_async_join_on_drop_disk_is_model pl s h').1, C16_async_join_on_drop_atomic pl s h',
+   fun p => (C16_async_join_on_drop_success_sees_complete pl s h' p).1⟩
+
+/-- non-vacuity of `ReachableQD`: a cancellation inside the callback AFTER the queued write has been executed -/
+example : ∃ s, FCA.ReachableQD C16_payload s ∧ s.base.pc 0 = .dead ∧ s.partDisk = some [1] ∧ s.inflight = [] := by
+  have step := @FCA.ReachableQD.step C16_payload
+  refine ⟨_, step (.base (.cancel 0)) (step (.land 0) (step (.base (.step 0)) (step (.base (.step 0))
+    (step (.base (.step 0)) (step (.base (.step 0)) (step (.base (.step 0)) FCA.ReachableQD.init
+    (by decide) rfl) (by decide) rfl) (by decide) rfl) (by decide) rfl) (by decide) rfl) (by decide) rfl)
+    (by decide) rfl, by decide, by decide, by decide⟩
+
 /-- non-vacuity: a `joinOnDrop = true` history with a write still queued, a cancellation and a second creator -/
 example : ((FCA.run true C16_payload FCA.State.init
     [.base (.step 0), .base (.step 0), .base (.step 0), .base (.step 0), .base (.step 0),
